@@ -96,10 +96,18 @@ def sh(cmd, cwd=None, timeout=600, env=None):
     e = dict(os.environ)
     e.update(env or {})
     e['CARGO_NET_OFFLINE'] = 'true'
+    # own process group, killed as a whole on timeout: a mutant can make a test spin forever
+    import signal
+    pr = subprocess.Popen(cmd, cwd=cwd, shell=True, stdout=subprocess.PIPE, stderr=subprocess.STDOUT, text=True, env=e, start_new_session=True)
     try:
-        r = subprocess.run(cmd, cwd=cwd, shell=True, capture_output=True, text=True, timeout=timeout, env=e)
-        return r.returncode, r.stdout + r.stderr
+        out, _ = pr.communicate(timeout=timeout)
+        return pr.returncode, out
     except subprocess.TimeoutExpired:
+        try:
+            os.killpg(pr.pid, signal.SIGKILL)
+        except OSError:
+            pass
+        pr.wait()
         return 124, 'timeout'
 
 
@@ -115,7 +123,7 @@ def evaluate(wt, m, props):
         if 'error' in out and ('could not compile' in out or 'aborting' in out):
             res['verdict'] = 'nocompile'
             return res
-        rc, out = sh('cargo test --offline --lib -- --skip embedded_io::tests::read_exact 2>&1 | tail -5', cwd=wt, timeout=300)  # that test is timing-flaky under load
+        rc, out = sh('cargo test --offline --lib -- --skip embedded_io::tests::read_exact 2>&1 | tail -5', cwd=wt, timeout=120)  # that test is timing-flaky under load
         if 'test result: ok' not in out:
             res['verdict'] = 'killed-by-tests'
             return res
